@@ -137,3 +137,107 @@ func VerifCheck_compat() {
 	verifAssert("FindAllSubmatch", verifEqBytesss(a.FindAllSubmatch(b, k), g.FindAllSubmatch(b, k)))
 	verifReach("end")
 }
+
+// ---------------------------------------------------------------- C02: the adapter reports what the wrapped Regexp reports
+
+var verifInner *regexp2.Regexp
+
+func VerifSetup_compatentry() {
+	o := regexp2.RegexOptions(verifParamInt("options"))
+	verifA = MustCompile(verifParam("pattern"), o)
+	verifInner = regexp2.MustCompile(verifParam("pattern"), o)
+}
+
+// verifPairs: byte index pairs of all groups of m (-1 pairs for groups without a capture).
+func verifPairs(m *regexp2.Match) []int {
+	if m == nil {
+		return nil
+	}
+	var out []int
+	gs := m.Groups()
+	for i := range gs {
+		if len(gs[i].Captures) == 0 {
+			out = append(out, -1, -1)
+			continue
+		}
+		bi, bl := gs[i].ByteRange()
+		out = append(out, bi, bi+bl)
+	}
+	return out
+}
+
+func VerifCheck_compatentry() {
+	n := verifParamInt("n")
+	b := make([]byte, n)
+	for i := range b {
+		if verifParam("mode") == "b" {
+			b[i] = verifByte("b" + strconv.Itoa(i))
+		} else {
+			b[i] = verifByteIn("a"+strconv.Itoa(i), verifParam("alphabet"))
+		}
+	}
+	s := string(b)
+	a, in := verifA, verifInner
+	m, err := in.FindStringMatch(s)
+	if err != nil {
+		verifFail("error", err.Error())
+	}
+	want := verifPairs(m)
+	verifNoteInts("regexp2", want)
+	verifNoteInts("adapter", a.FindStringSubmatchIndex(s))
+	if m != nil {
+		verifReach("match")
+	} else {
+		verifReach("nomatch")
+	}
+	verifAssert("adapter/MatchString", a.MatchString(s) == (m != nil))
+	verifAssert("adapter/Match", a.Match(b) == (m != nil))
+	verifAssert("adapter/MatchReader", a.MatchReader(strings.NewReader(s)) == (m != nil))
+	verifAssert("adapter/FindStringSubmatchIndex", verifEqInts(a.FindStringSubmatchIndex(s), want))
+	verifAssert("adapter/FindSubmatchIndex", verifEqInts(a.FindSubmatchIndex(b), want))
+	verifAssert("adapter/FindReaderSubmatchIndex", verifEqInts(a.FindReaderSubmatchIndex(strings.NewReader(s)), want))
+	var want0 []int
+	if m != nil {
+		want0 = want[:2]
+		verifAssert("adapter/FindString", a.FindString(s) == s[want[0]:want[1]])
+	} else {
+		verifAssert("adapter/FindString", a.FindString(s) == "")
+	}
+	verifAssert("adapter/FindStringIndex", verifEqInts(a.FindStringIndex(s), want0))
+	verifAssert("adapter/FindIndex", verifEqInts(a.FindIndex(b), want0))
+	verifAssert("adapter/FindReaderIndex", verifEqInts(a.FindReaderIndex(strings.NewReader(s)), want0))
+	// the match sequence: FindNextMatch iteration minus empty matches adjacent to the preceding reported match
+	var seq [][]int
+	prevEnd := -1
+	for k := 0; m != nil && k < n+3; k++ {
+		p := verifPairs(m)
+		if !(p[0] == p[1] && m.RuneIndex == prevEnd) {
+			seq = append(seq, p)
+			prevEnd = m.RuneIndex + m.RuneLength
+		}
+		m, err = in.FindNextMatch(m)
+		if err != nil {
+			verifFail("error", err.Error())
+		}
+	}
+	for _, k := range []int{-1, 1, 2} {
+		w := seq
+		if k >= 0 && len(w) > k {
+			w = w[:k]
+		}
+		var w0 [][]int
+		for _, p := range w {
+			w0 = append(w0, p[:2])
+		}
+		verifAssert("adapter/FindAllStringSubmatchIndex", verifEqIntss(a.FindAllStringSubmatchIndex(s, k), w))
+		verifAssert("adapter/FindAllSubmatchIndex", verifEqIntss(a.FindAllSubmatchIndex(b, k), w))
+		verifAssert("adapter/FindAllStringIndex", verifEqIntss(a.FindAllStringIndex(s, k), w0))
+		verifAssert("adapter/FindAllIndex", verifEqIntss(a.FindAllIndex(b, k), w0))
+		var ws []string
+		for _, p := range w0 {
+			ws = append(ws, s[p[0]:p[1]])
+		}
+		verifAssert("adapter/FindAllString", verifEqStrs(a.FindAllString(s, k), ws))
+	}
+	verifReach("end")
+}
